@@ -52,7 +52,7 @@ FN_SP = "signac_statepoint.json"
 # ------------------------------------------------------------------ generators
 def _universe(rng):
     u = rng.choice(["pow10", "one", "one", "neg", "prefixkeys", "nested", "hetero", "hetero", "strings", "strings",
-                    "seps", "seps", "lists", "two", "two", "floats", "mixed", "mixed"])
+                    "seps", "seps", "lists", "two", "two", "floats", "mixed", "mixed", "bools", "bools", "boolstr"])
     R = rng.random
     if u == "pow10":
         pool = [{"a": v} for v in (1, 10, 100, 1000, 11, 2)]
@@ -78,6 +78,10 @@ def _universe(rng):
         pool = [{"a": v} for v in ([1, "x"], [1.0, "x"], [True, "x"], [], [2], [[1], 2], 1, "x")]
     elif u == "two":
         pool = [{"a": v, "b": w} for v in (1, 2, 10) for w in ("x", "y", 1.5)]
+    elif u == "bools":
+        pool = [{"flag": f, "n": n} for f in (True, False) for n in (1, 2, 3)] + [{"flag": True, "n": 10}]
+    elif u == "boolstr":   # strings that a ':bool' field reads as booleans (or not)
+        pool = [{"flag": f, "n": 1} for f in ("true", "True", "TRUE", "false", "False", "FALSE", "0", "1", "yes", "no", "f")]
     elif u == "floats":
         pool = [{"a": v} for v in (0.5, 1.5, 2.25, -0.5, 1e22, 1.0, 10.0, 0.1, 3)] + [{"a": 0.5, "b": True}, {"a": 0.5, "b": False}]
     else:
@@ -216,6 +220,12 @@ def _one(rng, tier, big=False):
         schema = {"t": "auto_str", "wrong": rng.random() < 0.2}
     else:
         schema = {"t": "call", "mode": rng.choice(["faithful", "faithful", "drop_one", "wrong_one"])}
+    if u in ("bools", "boolstr") and sps:
+        # the layout flag/<value>/n/<value> read back with a ':bool' field, with and without state point files
+        path = {"t": "fmt", "segs": [["lit", "flag/"], ["key", ["flag"]], ["lit", "/n/"], ["key", ["n"]]]}
+        schema = {"t": "auto_str", "wrong": False, "force": {"flag": "bool"}}
+        if rng.random() < 0.5:
+            kind = "dir"
     pre = []
     if jobs and rng.random() < 0.2:
         if rng.random() < 0.6:
@@ -228,7 +238,7 @@ def _one(rng, tier, big=False):
     if (any(isinstance(v, str) and ("/" in v or v in (".", "..")) for v in sepvals)
             and path["t"] in ("fmt", "call") and kind.startswith("tar")):
         kind = rng.choice(["dir", "zip"])     # inner '..' in tar member names: outside the model's domain
-    strip = kind == "dir" and schema["t"] != "none" and rng.random() < 0.35
+    strip = kind == "dir" and schema["t"] != "none" and rng.random() < (0.5 if u in ("bools", "boolstr") else 0.35)
     return {"universe": u, "jobs": jobs, "asc": rng.random() < 0.6, "kind": kind, "path": path, "schema": schema,
             "pre": pre, "strip": strip}
 
@@ -279,6 +289,20 @@ FIXED = [
     {"universe": "pre-tar", "jobs": [{"sp": typed({"a": v}), "files": {"f.txt": b"new".hex()}} for v in (1, 2, 3)],
      "asc": False, "kind": "tar.gz", "path": {"t": "false"}, "schema": {"t": "none"},
      "pre": [{"sp": typed({"a": 2}), "files": {"f.txt": b"old".hex()}}], "strip": False},
+    {"universe": "bool-schema", "jobs": [{"sp": typed({"flag": f, "n": n}), "files": {"payload.txt": b"p".hex()}}
+                                         for f, n in ((True, 1), (False, 2), (True, 3), (False, 4))],
+     "asc": True, "kind": "dir", "path": {"t": "fmt", "segs": [["lit", "flag/"], ["key", ["flag"]], ["lit", "/n/"], ["key", ["n"]]]},
+     "schema": {"t": "auto_str", "wrong": False, "force": {"flag": "bool"}}, "pre": [], "strip": False},
+    {"universe": "bool-schema-plain", "jobs": [{"sp": typed({"flag": f, "n": n}), "files": {"payload.txt": b"p".hex()}}
+                                               for f, n in ((False, 7), (True, 8))],
+     "asc": False, "kind": "dir", "path": {"t": "fmt", "segs": [["lit", "flag/"], ["key", ["flag"]], ["lit", "/n/"], ["key", ["n"]]]},
+     "schema": {"t": "auto_str", "wrong": False, "force": {"flag": "bool"}}, "pre": [], "strip": True},
+    {"universe": "bool-schema-zip", "jobs": [{"sp": typed({"flag": f, "n": n}), "files": {}} for f, n in ((False, 1), (True, 1))],
+     "asc": True, "kind": "zip", "path": {"t": "fmt", "segs": [["lit", "flag/"], ["key", ["flag"]], ["lit", "/n/"], ["key", ["n"]]]},
+     "schema": {"t": "auto_str", "wrong": False, "force": {"flag": "bool"}}, "pre": [], "strip": False},
+    {"universe": "boolstr-plain", "jobs": [{"sp": typed({"flag": f, "n": 1}), "files": {}} for f in ("FALSE", "true", "0", "yes")],
+     "asc": True, "kind": "dir", "path": {"t": "fmt", "segs": [["lit", "flag/"], ["key", ["flag"]], ["lit", "/n/"], ["key", ["n"]]]},
+     "schema": {"t": "auto_str", "wrong": False, "force": {"flag": "bool"}}, "pre": [], "strip": True},
     {"universe": "schema", "jobs": [{"sp": typed({"a": v, "b": w}), "files": {"f.txt": b"x".hex()}}
                                     for v, w in ((1, "x"), (10, "y"), (-3, "x_1"))],
      "asc": False, "kind": "dir", "path": {"t": "fmt", "segs": [["lit", "a/"], ["key", ["a"]], ["lit", "/b/"], ["key", ["b"]]]},
@@ -288,7 +312,7 @@ FIXED = [
 
 def gen_inputs(tier, rng):
     descs = [dict(d) for d in FIXED]
-    n = 225 if tier == "quick" else 6000
+    n = 221 if tier == "quick" else 6000
     for i in range(n):
         descs.append(_one(rng, tier, big=(tier != "quick" and i % 3 == 0) or (tier == "quick" and i % 12 == 0)))
     return descs
@@ -420,7 +444,7 @@ def get_path(sp, ks):
     return v, True
 
 
-def derive_schema(dst, sp, wrong):
+def derive_schema(dst, sp, wrong, force=None):
     """schema string describing the layout of one exported path, typed after the job's values"""
     toks = dst.split("/")
     keys = {".".join(k): k for k in _leaf_keys(sp)}
@@ -431,6 +455,8 @@ def derive_schema(dst, sp, wrong):
             v, _ = get_path(sp, keys[t])
             ty = ("bool" if isinstance(v, bool) else "int" if isinstance(v, int) else "float" if isinstance(v, float)
                   else "str")
+            if force and t in force:
+                ty = force[t]
             if wrong:
                 ty = {"int": "float", "float": "int", "str": "int", "bool": "str"}[ty]
                 wrong = False
@@ -601,7 +627,7 @@ def run_case(desc):
                 pyschema = None
                 if s["t"] == "auto_str":
                     if jobs:
-                        schema_txt = derive_schema(x_map[0], sps[ids[0]], s["wrong"])
+                        schema_txt = derive_schema(x_map[0], sps[ids[0]], s["wrong"], s.get("force"))
                     else:
                         schema_txt = "a/{a:int}"
                     pyschema = schema_txt
@@ -641,6 +667,13 @@ def run_case(desc):
                         ["(%s, %s)" % (coq_str(k), "None" if v is None else "(Some %s)" % coq_json(v))
                          for k, v in sorted(tab.items())], "(str * option json)")
             dst_tree = {k[len("dst/"):]: v for k, v in snap(d).items() if k == "dst/workspace" or k.startswith("dst/workspace/")}
+            for rel, c in dst_tree.items():
+                # state point files written by job.init() during the import (json.loads oracle)
+                if c is not None and rel.split("/")[-1] == FN_SP and c not in parse_tab:
+                    try:
+                        parse_tab[c] = json.loads(c.decode())
+                    except ValueError:
+                        pass
 
         # ---- oracle tables: floats
         fvals = []
